@@ -90,3 +90,33 @@ func Settle(timeout time.Duration) error {
 		}
 	}
 }
+
+// DoneOrRetrying waits until done() holds, or until a snapshot shows a goroutine with one of the given frames asleep in
+// time.Sleep — i.e. the call has been refused at least once and is in its retry loop. It reports which; the verdict
+// comes from the snapshot (the goroutine's state and frames), never from elapsed time.
+func DoneOrRetrying(done func() bool, frames []string, timeout time.Duration) (retrying bool, err error) {
+	deadline := time.Now().Add(timeout)
+	for {
+		if done() {
+			return false, nil
+		}
+		runtime.Gosched()
+		for _, g := range sched.Snapshot() {
+			if g.State != "sleep" || !strings.Contains(g.Text, "time.Sleep") {
+				continue
+			}
+			for _, f := range frames {
+				if strings.Contains(g.Text, f) {
+					if done() { // it may have finished meanwhile (a different goroutine was seen)
+						return false, nil
+					}
+					return true, nil
+				}
+			}
+		}
+		if time.Now().After(deadline) {
+			return false, fmt.Errorf("c12sched: call neither returned nor entered its retry loop within %v", timeout)
+		}
+		time.Sleep(20 * time.Microsecond)
+	}
+}
